@@ -38,6 +38,7 @@ type Opts struct {
 	Levels    []uint
 	BatchSize int
 	Asan      bool
+	Build     rx.BuildOpts // template for extra link flags / objects (Opt and Asan are overridden)
 	// Extra is called for every executed program (after the stdout comparison passed) and may report
 	// additional violations (memory monitors…): return "" or a description.
 	Extra func(r rx.RunResult) string
@@ -222,7 +223,9 @@ func runMulti(c *ev.Ctx, cs *Case, o Opts, st *Stats, fail func(cs *Case, lvl ui
 		exps = append(exps, expT{a, out})
 	}
 	for _, lvl := range o.Levels {
-		b := rx.Build(dir, "main.ddp", rx.BuildOpts{Opt: lvl, Asan: o.Asan})
+		bo := o.Build
+		bo.Opt, bo.Asan = lvl, o.Asan
+		b := rx.Build(dir, "main.ddp", bo)
 		atomic.AddInt64(&st.Builds, 1)
 		if !b.OK {
 			diag := ""
@@ -322,7 +325,9 @@ func runProgram(c *ev.Ctx, cs []*Case, tagged bool, o Opts, st *Stats, _ any) []
 		}
 	}
 	for _, lvl := range o.Levels {
-		b := rx.Build(dir, "main.ddp", rx.BuildOpts{Opt: lvl, Asan: o.Asan})
+		bo := o.Build
+		bo.Opt, bo.Asan = lvl, o.Asan
+		b := rx.Build(dir, "main.ddp", bo)
 		atomic.AddInt64(&st.Builds, 1)
 		if !b.OK {
 			if b.Stage == "died" || b.Stage == "timeout" {
